@@ -366,16 +366,32 @@ theta_v3_roundtrip!(c11_theta_v3_roundtrip_estimating_two_unordered, 2, 40, fals
 theta_v3_roundtrip!(c11_theta_v3_roundtrip_estimating_three_ordered, 3, 48, true, true, false);
 //@ endfamily: x
 
-fn theta_any_bytes_case(version: u8, reserialize: bool) {
-    let img: [u8; 48] = kani::any();
-    let len: usize = kani::any();
-    kani::assume(len <= 48);
-    kani::assume(img[1] == version);
+/// lengths at which the truncated-image instances cut the buffer (concrete: a slice of symbolic length
+/// defeats CBMC's constant propagation over the literal version byte and every version's parser is explored)
+const SHORT_LENS: [usize; 8] = [0, 1, 2, 7, 8, 15, 16, 23];
+
+fn theta_any_bytes_case(version: u8, reserialize: bool, short: bool) {
+    if short {
+        let mut i = 0;
+        while i < SHORT_LENS.len() {
+            theta_any_bytes_at(version, false, SHORT_LENS[i]);
+            i += 1;
+        }
+        theta_any_bytes_at(version, false, 24);
+        theta_any_bytes_at(version, false, 31);
+    } else {
+        theta_any_bytes_at(version, reserialize, 48);
+    }
+}
+
+fn theta_any_bytes_at(version: u8, reserialize: bool, len: usize) {
+    let mut img: [u8; 48] = kani::any();
+    img[1] = version; // (a literal, not an assumption: symbolic execution then only explores this version's parser)
     let r = CompactThetaSketch::deserialize(&img[..len]);
-    kani::cover!(r.is_ok());
+    kani::cover!(r.is_ok() || len != 48);
     kani::cover!(r.is_err());
     if let Ok(g) = r {
-        kani::cover!(g.entries.len() == 2);
+        kani::cover!(g.entries.len() == 2 || len != 48);
         let _ = g.estimate();
         let _ = g.upper_bound(NumStdDev::Two);
         let _ = g.lower_bound(NumStdDev::Two);
@@ -390,14 +406,15 @@ fn theta_any_bytes_case(version: u8, reserialize: bool) {
 }
 
 macro_rules! theta_any_bytes {
-    ($name:ident, $v:expr, $re:expr) => {
+    ($name:ident, $v:expr, $re:expr, $short:expr) => {
         #[kani::proof]
-        #[kani::unwind(10)]
+        #[kani::unwind(7)]
         #[kani::stub(alloc::fmt::format, stub_format)]
+        #[kani::stub(alloc::vec::Vec::with_capacity, crate::verif_kani_common::stub_with_capacity)]
         #[kani::stub(crate::common::binomial_bounds::compute_approx_binomial_lower_bound, stub_approx_lb)]
         #[kani::stub(crate::common::binomial_bounds::compute_approx_binomial_upper_bound, stub_approx_ub)]
         fn $name() {
-            theta_any_bytes_case($v, $re);
+            theta_any_bytes_case($v, $re, $short);
         }
     };
 }
@@ -411,57 +428,57 @@ macro_rules! theta_any_bytes {
 //@ functions: theta::CompactThetaSketch::deserialize_v2
 //@ functions: theta::CompactThetaSketch::deserialize_v3
 //@ functions: theta::CompactThetaSketch::read_entries
-//@ unwind: 10
-//@ stubs: alloc::fmt::format -> empty string; binomial approximations -> arbitrary values
-//@ bounds: every byte string of length 0..=48 with the serial version of the instance (1, 2, 3; v4: c14_theta_v4_any_bytes; other versions are rejected in the header - covered by each instance's Err paths and c14_theta_unknown_version)
+//@ unwind: 7
+//@ stubs: alloc::fmt::format -> empty string; Vec::with_capacity -> empty vector (capacity is a hint); binomial approximations -> arbitrary values
+//@ bounds: every byte string of exactly 48 bytes (in the *_truncated instances: of each of the lengths 0, 1, 2, 7, 8, 15, 16, 23, 24, 31) with the serial version of the instance (1, 2, 3; v4: c14_theta_v4_any_bytes; other versions are rejected in the header - covered by each instance's Err paths and c14_theta_unknown_version)
 //@ desc: deserialize returns Ok or Err without panic for every v1/v2/v3 byte string; an Ok value can be queried (estimate, bounds) and - in the *_reserialize instances - re-serialized without panicking
-theta_any_bytes!(c14_theta_v1_any_bytes, 1, false); //@ tier: quick
-theta_any_bytes!(c14_theta_v2_any_bytes, 2, false); //@ tier: quick
-theta_any_bytes!(c14_theta_v3_any_bytes, 3, false); //@ tier: quick
-theta_any_bytes!(c14_theta_v3_any_bytes_reserialize, 3, true);
-theta_any_bytes!(c14_theta_v2_any_bytes_reserialize, 2, true);
+theta_any_bytes!(c14_theta_v1_any_bytes, 1, false, false); //@ tier: quick
+theta_any_bytes!(c14_theta_v2_any_bytes, 2, false, false); //@ tier: quick
+theta_any_bytes!(c14_theta_v3_any_bytes, 3, false, false); //@ tier: quick
+theta_any_bytes!(c14_theta_v3_any_bytes_truncated, 3, false, true);
+theta_any_bytes!(c14_theta_v2_any_bytes_truncated, 2, false, true);
+theta_any_bytes!(c14_theta_v1_any_bytes_truncated, 1, false, true);
+theta_any_bytes!(c14_theta_v3_any_bytes_reserialize, 3, true, false);
+theta_any_bytes!(c14_theta_v2_any_bytes_reserialize, 2, true, false);
 //@ endfamily: x
 
 //@ props: C14
 //@ tier: quick
 //@ timeout: 900
 //@ functions: theta::CompactThetaSketch::deserialize
-//@ bounds: every byte string of length 0..=24 whose serial version byte is not 1..=4
+//@ bounds: every 24-byte string whose serial version byte is not 1..=4
 //@ desc: images of an unknown serial version are rejected (Err), never a panic
 #[kani::proof]
 #[kani::unwind(10)]
 #[kani::stub(alloc::fmt::format, stub_format)]
+#[kani::stub(alloc::vec::Vec::with_capacity, crate::verif_kani_common::stub_with_capacity)]
 fn c14_theta_unknown_version() {
     let img: [u8; 24] = kani::any();
-    let len: usize = kani::any();
-    kani::assume(len <= 24);
     kani::assume(img[1] == 0 || img[1] > 4);
-    let r = CompactThetaSketch::deserialize(&img[..len]);
-    kani::cover!(len >= 8);
-    if len >= 2 {
-        assert!(r.is_err(), "an image with an unknown serial version was accepted");
-    }
+    let r = CompactThetaSketch::deserialize(&img);
+    assert!(r.is_err(), "an image with an unknown serial version was accepted");
+    kani::cover!(img[1] == 5);
     core::mem::forget(r);
 }
 
 //@ props: C14
-//@ tier: quick
+//@ tier: thorough
 //@ timeout: 1800
 //@ functions: theta::CompactThetaSketch::deserialize
 //@ functions: theta::CompactThetaSketch::deserialize_v4
 //@ functions: theta::bit_pack::BitUnpacker::unpack_value
 //@ stubs: unpack_bits_block -> model that fails where the real one panics and returns arbitrary deltas
-//@ bounds: every byte string of length 0..=48 with serial version 4 (entry_bits, num_entries_bytes, counts and payload symbolic)
+//@ bounds: every byte string of exactly 48 bytes with serial version 4 (entry_bits, num_entries_bytes, counts and payload symbolic; counts beyond the buffer exercise the truncated-payload paths)
 //@ desc: deserialize returns Ok or Err without panic (no shift overflow on the count bytes, no assertion in the unpackers, no add overflow on the deltas) for every v4 byte string
 #[kani::proof]
 #[kani::unwind(12)]
 #[kani::stub(alloc::fmt::format, stub_format)]
 #[kani::stub(crate::theta::bit_pack::unpack_bits_block, model_unpack_block)]
+#[kani::stub(alloc::vec::Vec::with_capacity, crate::verif_kani_common::stub_with_capacity)]
 fn c14_theta_v4_any_bytes() {
-    let img: [u8; 48] = kani::any();
-    let len: usize = kani::any();
-    kani::assume(len <= 48);
-    kani::assume(img[1] == 4);
+    let mut img: [u8; 48] = kani::any();
+    let len: usize = 48;
+    img[1] = 4;
     let r = CompactThetaSketch::deserialize(&img[..len]);
     kani::cover!(r.is_ok());
     kani::cover!(r.is_err());
@@ -679,11 +696,20 @@ fn v4_case<const N: usize>() {
     core::mem::forget((c, g, bytes));
 }
 
+fn cut_pack_block(_values: &[u64], _bytes: &mut [u8], _bits: u8) {
+    panic!("verif cut: the 8-entry block packer reached with fewer than 8 entries");
+}
+fn cut_unpack_block(_values: &mut [u64], _bytes: &[u8], _bits: u8) {
+    panic!("verif cut: the 8-entry block unpacker reached with fewer than 8 entries");
+}
+
 macro_rules! theta_v4_roundtrip {
     ($name:ident, $n:expr, $unwind:expr) => {
         #[kani::proof]
         #[kani::unwind($unwind)]
         #[kani::stub(alloc::fmt::format, stub_format)]
+        #[kani::stub(crate::theta::bit_pack::pack_bits_block, cut_pack_block)]
+        #[kani::stub(crate::theta::bit_pack::unpack_bits_block, cut_unpack_block)]
         fn $name() {
             v4_case::<$n>();
         }
@@ -702,7 +728,7 @@ macro_rules! theta_v4_roundtrip {
 //@ functions: theta::bit_pack::BitPacker::pack_value
 //@ functions: theta::bit_pack::BitUnpacker::unpack_value
 //@ unwind: 12
-//@ stubs: alloc::fmt::format -> empty string
+//@ stubs: alloc::fmt::format -> empty string; pack_bits_block / unpack_bits_block -> must-not-reach cuts (fewer than 8 entries: the 63-way width dispatch is covered per width by c11_pack_bits_NN)
 //@ bounds: ordered compact sketches with the instance's number of entries (1, 2, 3: tail path; the 8-entry block path is covered per width by c11_pack_bits_NN), every theta, every delta - so every bit width 1..=63 arises symbolically
 //@ desc: the compressed image has the v4 header (preLongs 1/2, serVer 4, family 3, entry_bits @3, count-byte count @4, flags, seed hash, theta, little-endian count), the declared width is that of the widest delta, the length is header + ceil(n*bits/8), and it deserializes to the identical sketch
 theta_v4_roundtrip!(c11_theta_v4_roundtrip_1, 1, 12); //@ tier: quick
